@@ -99,6 +99,15 @@ def check(run):
                 else:                                          # (L*m)+k
                     exprs.append((e[1][2][1], e[2][1]))
         cases.append(mk_case(body, cat, cascade=exprs))
+    # shrinking values: %push(K - L) gets a width in an early round that its final value would not need;
+    # the layout keeps the wider choice (labels must not move back) and the bytes must agree with it
+    for B in ((256,) if run.tier != "thorough" else (256, 65536)):
+        for extra in (0, 1, 2):
+            K = 2 * B - 2 + extra
+            fill = [("op", "pc", None)] * (B - 6) if B == 256 else [("op", "push32", ("num", 7, 16))] * ((B - 8) // 33) + [("op", "pc", None)] * ((B - 8) % 33)
+            body = [("push", G.climb([("num", K), "-", ("lbl", "L")])), ("push", ("lbl", "L"))] + fill + [("label", "L"), ("op", "jumpdest", None)]
+            cases.append(mk_case(body, "shrinking", cascade=[(-1, K), (1, 0)]))
+            cases.append(mk_case([("defi", "m", [], body), ("macro", "m", [])], "shrinking-in-macro", cascade=[(-1, K), (1, 0)]))
     return asmfam.run_family(run, "C07", cases, oracle,
-                             "cascades (auto-sized pushes of L*m+k that settle only after several widening rounds: one push growing twice, searched 2-4 push programs needing more rounds than pushes; exact value checked against the decoded position of the label); values 256^k-1, 256^k, 256^k+1 for k=0..33, negatives, random; each in up to 11 spellings (4 radices, sum, product, parenthesised, expression macro, macro argument, before/after labels); distinct = distinct sources",
+                             "shrinking values (%push(K - L) that needs its wider early width no longer at the end: bytes must still agree with the layout); cascades (auto-sized pushes of L*m+k that settle only after several widening rounds: one push growing twice, searched 2-4 push programs needing more rounds than pushes; exact value checked against the decoded position of the label); values 256^k-1, 256^k, 256^k+1 for k=0..33, negatives, random; each in up to 11 spellings (4 radices, sum, product, parenthesised, expression macro, macro argument, before/after labels); distinct = distinct sources",
                              "auto-sized pushes")
